@@ -148,11 +148,6 @@ package aggsender
 //@   ensures statusChecks == old(statusChecks) + 1 && pendingAtLastCheck == result.ExistPendingCerts && newInErrorAtLastCheck == result.ExistNewInErrorCert
 //@ interface github.com/agglayer/aggkit/aggsender/types.EpochNotifier.Subscribe (self, id)
 //@   modifies nothing
-//@ extern time.NewTicker (d)
-//@   modifies nothing
-//@   ensures result != nil && fresh(result)
-//@ extern (*time.Ticker).Stop (t)
-//@   modifies nothing
 //@ func (a *AggSender) sendCertificates
 //@   props C02
 //@   requires a != nil && a.storage != nil && a.log != nil && a.flow != nil && a.aggLayerClient != nil && a.epochNotifier != nil && a.rateLimiter != nil && a.certStatusChecker != nil && a.status != nil
